@@ -37,7 +37,7 @@ def p_error_cases():
         cx.register("kind", k)
         cx.assume(z3.And(k >= 0, k < 5))
         kind = cx.choose([(k == i, i) for i in range(5)])
-        cx.notes["replay_info"] = {"queries": ["(a", "a AND", ")", "a:", "[1 TO"]}
+        cx.notes["replay_info"] = {"queries": ["(a", "a AND", ")", "a:", "[1 TO", "[a %d]", "x:[10% 20%]", "%s)"]}
         if kind == 0:
             tok = None
         else:
